@@ -43,14 +43,23 @@ def main():
     inner = "--inner" in a
     bad = 0
     combined = hashlib.sha256()
+    import concurrent.futures
+    step = max(1, n // 4)
+    jobs = {}
+    with concurrent.futures.ThreadPoolExecutor(max_workers=12) as ex:
+        for prop in props:
+            jobs[(prop, "one")] = ex.submit(digests, prop, seed, 0, n, 11)
+            jobs[(prop, "two")] = ex.submit(digests, prop, seed, 0, n, 11)
+            jobs[(prop, "other")] = ex.submit(digests, prop, seed, 0, n, 99)
+            for s in range(0, n, step):
+                jobs[(prop, "part", s)] = ex.submit(digests, prop, seed, s, min(step, n - s), 11)
     for prop in props:
-        one = digests(prop, seed, 0, n, 11)
-        two = digests(prop, seed, 0, n, 11)
+        one = jobs[(prop, "one")].result()
+        two = jobs[(prop, "two")].result()
+        other = jobs[(prop, "other")].result()
         parts = {}
-        step = max(1, n // 4)
         for s in range(0, n, step):
-            parts.update(digests(prop, seed, s, min(step, n - s), 11))
-        other = digests(prop, seed, 0, n, 99)
+            parts.update(jobs[(prop, "part", s)].result())
         cnt = {"a": 0, "b": 0, "c": 0, "d": 0}
         for i in range(n):
             if one[i]["d1"] != one[i]["d2"]:
